@@ -692,6 +692,12 @@ class Sx:
 
     # -- comparisons ------------------------------------------------------
     def _cmp(self, o, op):
+        if type(o) is float and o in (math.inf, -math.inf):
+            # every real value lies strictly between -inf and +inf
+            if self.im:
+                raise TypeError("ordering of complex symbolic scalars with infinity")
+            pos = o > 0
+            return {"==": False, "!=": True, "<": pos, "<=": pos}[op]
         if type(o) is not Sx:
             o = _coerce(o)
             if o is None:
@@ -723,12 +729,16 @@ class Sx:
         return self._cmp(o, "<=")
 
     def __gt__(self, o):
+        if type(o) is float and o in (math.inf, -math.inf):
+            return o < 0
         o = _coerce(o)
         if o is None:
             return NotImplemented
         return o._cmp(self, "<")
 
     def __ge__(self, o):
+        if type(o) is float and o in (math.inf, -math.inf):
+            return o < 0
         o = _coerce(o)
         if o is None:
             return NotImplemented
